@@ -46,7 +46,13 @@ class FCodeMapper(LokiStringifyMapper):
             return f'{str(expr.value)}_{str(expr.kind)}'
         return str(expr.value)
 
-    map_int_literal = map_float_literal
+    def map_int_literal(self, expr, enclosing_prec, *args, **kwargs):
+        result = self.map_float_literal(expr, enclosing_prec, *args, **kwargs)
+        # A negative literal (created by transformations that substitute values for variables)
+        # binds weaker than `**`: -3**2 is -(3**2)
+        if enclosing_prec >= PREC_POWER and result.startswith('-'):
+            return f'({result})'
+        return result
 
     def map_logical_not(self, expr, enclosing_prec, *args, **kwargs):
         return self.parenthesize_if_needed(
